@@ -180,6 +180,18 @@ def check_uq_interp_forms(run):
                     isinstance(c_.args[0], ast.BinOp) and isinstance(c_.args[0].op, ast.Add) and \
                     {'q1', 'q2'} <= {y.id for y in ast.walk(c_.args[0]) if isinstance(y, ast.Name)}:
                 cands.append((c_, c_.args[0]))
+    # name-independent: the argument of the normalising constructor on the evaluated paths (every local but q1, q2, dot put in place)
+    if True:
+        ev = []
+        try:
+            for (r_, e_) in sl_eval(cx, keep=('q1', 'q2', 'dot')):
+                b_ = matches('UnitQuaternion(_X)', e_)
+                if b_ is not None and {'q1', 'q2'} <= {y.id for y in ast.walk(b_['_X']) if isinstance(y, ast.Name)}:
+                    ev.append((r_, b_['_X']))
+        except Exception:
+            ev = []
+        if ev:
+            cands = ev
     for (st, val) in cands:
         if True:
             try:
